@@ -484,6 +484,29 @@ theorem scan_first_inside (h : ScanOK poly mn mx)
         rw [List.all_eq_true]; intro hh hhh; simp [hwholes hh hhh]
       simp [hwext, hall]
 
+/-- "holes lie inside the shell" in winding form implies the order form used by
+`scan_first_inside`: if the exterior ring winds around every point where a hole crosses the scan
+line, every hole crossing has an exterior crossing strictly to its left -/
+theorem first_of_wound (h : ScanOK poly mn mx) (hclosed : poly.ext.head? = poly.ext.getLast?)
+    (hw : ∀ hole ∈ poly.ints, ∀ t ∈ (segs hole).flatMap (crossXs (yMid mn mx poly.coords)),
+      windingE (EPt.ofPt ⟨t, yMid mn mx poly.coords⟩) poly.ext ≠ 0) :
+    ∀ hole ∈ poly.ints, ∀ t ∈ (segs hole).flatMap (crossXs (yMid mn mx poly.coords)),
+      ∃ t' ∈ (segs poly.ext).flatMap (crossXs (yMid mn mx poly.coords)), t' < t := by
+  intro hole hh t ht
+  have hext_r : poly.ext ∈ poly.rings := by simp [Poly.rings]
+  obtain ⟨t', ht', hle⟩ := exists_crossing_le_of_winding t _ poly.ext hclosed
+    (fun v hv => h.hy v (mem_rings_coords hext_r hv)) (hw hole hh t ht)
+  refine ⟨t', ht', lt_of_le_of_ne hle ?_⟩
+  have hnd := h.hnd
+  rw [h.hits] at hnd
+  have hsplit : (poly.rings.flatMap segs).flatMap (crossXs (yMid mn mx poly.coords)) =
+      (segs poly.ext).flatMap (crossXs (yMid mn mx poly.coords)) ++
+      (poly.ints.flatMap segs).flatMap (crossXs (yMid mn mx poly.coords)) := by
+    simp [Poly.rings, List.flatMap_cons, List.flatMap_append]
+  rw [hsplit, List.nodup_append] at hnd
+  apply hnd.2.2 t' ht' t
+  rw [List.flatMap_assoc, List.mem_flatMap]; exact ⟨hole, hh, ht⟩
+
 end scan
 
 end Geo.Proofs.C12
